@@ -543,7 +543,7 @@ func TestC23(t *testing.T) {
 				s.MaxB = 2
 			}
 			if thorough {
-				s.MinB, s.MaxB, s.Budget = 2, 2, 5*time.Minute
+				s.MinB, s.MaxB, s.Budget = 2, 2, 7*time.Minute
 				if deep[s.Name] {
 					// as far into bound 3 as the budget allows; bound 2 is what is claimed
 					s.MaxB = 3
